@@ -4,7 +4,9 @@
    CURRENT one, i.e. with the repair of finding F3 (commit 70eb6e5: cv_dequeue tests membership of the record in
    pcv->waiters under the spinlock and otherwise waits for waiting == 0; wake_waiters reads p_nw->sem before it
    clears waiting), and with the repair of F15 (commit 0f631a1: the CAS of wake_waiters that releases the mutex spinlock
-   clears clear_on_release = MU_SPINLOCK, plus MU_WAITING when pmu->waiters is empty after the transfer).
+   clears clear_on_release = MU_SPINLOCK, plus MU_WAITING when pmu->waiters is empty after the transfer) and of F16 (commit
+   f28c99f: the transfer loop of wake_waiters moves only waiters with cv_mu == pmu; a waiter that came through
+   nsync_cv_wait_with_deadline_generic with the caller's own lock routines is woken directly).
 
    One step = one atomic site of cv.c / nsync_spin_test_and_set_ followed by the thread-local work and the
    spinlock-protected plain accesses up to the next site (DESIGN.md 3.1).  Every value written to the cv word,
@@ -372,7 +374,8 @@ Fixpoint xfer_rest (rs : nat -> rec) (fca fw : bool) (q : list nat) (taw war : b
   | [] => ([], [], taw, war)
   | p :: rest =>
       let piw := is_mucv (rs p) && is_W (l_type (rs p)) in
-      if negb (is_mucv (rs p)) then let '(m, s, a, b) := xfer_rest rs fca fw rest taw war in (m, p :: s, a, b)
+      if negb (is_mucv (rs p)) || negb (cv_mu (rs p))      (* p_w == NULL || p_w->cv_mu != pmu (one mutex here: cv_mu != NULL means pmu); the F16 repair *)
+      then let '(m, s, a, b) := xfer_rest rs fca fw rest taw war in (m, p :: s, a, b)
       else if fca || fw || piw then let '(m, s, a, b) := xfer_rest rs fca fw rest (taw || piw) war in (p :: m, s, a, b)
       else let '(m, s, a, b) := xfer_rest rs fca fw rest taw (war || negb piw) in (m, p :: s, a, b)
   end.
@@ -508,7 +511,12 @@ Definition st_WStore1 (w : world) (t : nat) (l : wl) (c : choice) : world * ev :
   let w1 := upd_rec w t (fun x => r_set_assoc (r_set_waiting x v) None (negb (w_gen l))) in
   if nsync_cv_wait_with_deadline_generic_load1_guard (if w_gen l then 0 else 1)
   then (set_pc w1 t (WLoadMu l), EvStore 201 (oid t) v)
-  else (set_pc w1 t (SpLoad true (KWaitEnq l)), EvStore 201 (oid t) v).
+  else
+    (* cv_mu == NULL: the caller's own lock routines.  ABSTRACT mutex: they are the shared or the exclusive routines of THE
+       mutex of the model, whichever mode the caller holds; [w_rdr] (is_reader_mu in the C code, which stays 0 here) carries that
+       for the two abstract steps [WMuRel] (the call of the caller's unlock routine) and [WMuAcq] (of its lock routine); no atomic
+       site depends on it *)
+    (set_pc w1 t (SpLoad true (KWaitEnq (wl_set_rdr l (is_R (held (get w t)))))), EvStore 201 (oid t) v).
 Definition st_WLoadMu (w : world) (t : nat) (l : wl) (c : choice) : world * ev :=
   let old := muw w in
   let is_writer := has old MU_WHELD_IF_NON_ZERO in
